@@ -63,6 +63,18 @@ package formula
 //@ spec isDigitCh(ch int) bool := ch >= 48 && ch <= 57
 //@ spec scanFrame(s *Scanner) bool := sinv(s) && cbok(s)
 
+// Numeric literals (C12). A fragment is a maximal run of digits and underscores; its value is
+// the run with the underscores removed (strip, defined by peeling the last byte); a separator
+// is misplaced when no digit precedes it (sepBad) or when it ends the run - exactly then an
+// error is logged.
+//@ spec fragCh(c int) bool := isDigitCh(c) || c == '_'
+//@ spec rec fragEnd(t string, p int) int := (p >= 0 && p < len(t) && fragCh(t[p])) ? fragEnd(t, p + 1) : p
+//@ spec rec strip(t string, a int, b int) string := b <= a ? "" : (t[b-1] == '_' ? strip(t, a, b-1) : strip(t, a, b-1) ++ t[b-1:b])
+//@ spec sepBad(t string, a int, p int) bool := exists i int :: a <= i && i < p && t[i] == '_' && (i == a || !isDigitCh(t[i-1]))
+//@ spec sepErr(t string, a int, p int) bool := sepBad(t, a, p) || (p > a && t[p-1] == '_')
+//@ spec hasSep(t string, a int, p int) bool := exists i int :: a <= i && i < p && t[i] == '_'
+//@ spec sepFlag(s *Scanner) bool := s.tokenFlags & TF_ContainsSeparator != 0
+
 //@ func (*Scanner).scanNumberFragment
 //@   tags [C14,C01,C12]
 //@   requires scanFrame(s)
@@ -70,8 +82,21 @@ package formula
 //@   panics never
 //@   ensures scanFrame(s) && s.pos >= old(s.pos) && nd(s) >= old(nd(s))
 //@   ensures old(s.pos) < s.end && isDigitCh(old(cur(s))) ==> s.pos > old(s.pos)
+//@   ensures[C12] s.pos == fragEnd(s.text, old(s.pos))
+//@   ensures[C12] result == strip(s.text, old(s.pos), s.pos)
+//@   ensures[C12] sepErr(s.text, old(s.pos), s.pos) ==> errd(s)
+//@   ensures[C12] !sepErr(s.text, old(s.pos), s.pos) ==> nd(s) == old(nd(s))
+//@   ensures[C12] sepFlag(s) == (old(sepFlag(s)) || hasSep(s.text, old(s.pos), s.pos))
 //@   loop 1: invariant scanFrame(s) && old(s.pos) <= start && start <= s.pos && 0 <= underlineStart && underlineStart <= s.pos
 //@           invariant nd(s) >= old(nd(s))
+//@           invariant[C12] fragEnd(s.text, s.pos) == fragEnd(s.text, old(s.pos))
+//@           invariant[C12] result.contents ++ s.text[start:s.pos] == strip(s.text, old(s.pos), s.pos)
+//@           invariant[C12] allowSeparator == (s.pos > old(s.pos) && isDigitCh(s.text[s.pos-1])) && (!allowSeparator ==> start == s.pos)
+//@           invariant[C12] isPreviousTokenSeparator ==> s.pos > old(s.pos) && s.text[s.pos-1] == '_' && underlineStart == s.pos - 1
+//@           invariant[C12] s.pos > old(s.pos) && s.text[s.pos-1] == '_' ==> isPreviousTokenSeparator || sepBad(s.text, old(s.pos), s.pos)
+//@           invariant[C12] sepBad(s.text, old(s.pos), s.pos) ==> errd(s)
+//@           invariant[C12] !sepBad(s.text, old(s.pos), s.pos) ==> nd(s) == old(nd(s))
+//@           invariant[C12] sepFlag(s) == (old(sepFlag(s)) || hasSep(s.text, old(s.pos), s.pos))
 //@           decreases s.end - s.pos
 
 //@ func (*Scanner).scanNumber
